@@ -15,7 +15,7 @@ Definition drv_wsgi : stmt := Call g_handle_rpc.
       self.get_out_string(p_ctx)
       p_ctx.close() *)
 Definition drv_serverbase : stmt :=
-  seq [Call lib_ctx_init;
+  seq [Call g_ctx_init;
        Call g_generate_contexts;
        If (CNotNone VInError) Skip
           (seq [Call g_get_in_object;
